@@ -191,7 +191,9 @@ func getPlacement(start, end pr.GridLine, lines []pr.GridNames) placement {
 			spanIdent = ident
 			if spanIdent != "" {
 				hasBroken := false
-				for index, line := range lines[coord.i+1:] {
+				// the start line may be outside of the explicit grid
+				after := utils.MinInt(utils.MaxInt(coord.i+1, 0), len(lines))
+				for index, line := range lines[after:] {
 					size = index + 1
 					if utils.IsIn(line, spanIdent) {
 						spanNumber -= 1
@@ -216,7 +218,7 @@ func getPlacement(start, end pr.GridLine, lines []pr.GridNames) placement {
 					number = 1
 				}
 				if coordEnd.i > 0 {
-					slice := lines[coordEnd.i-1:]
+					slice := lines[utils.MinInt(coordEnd.i-1, len(lines)):]
 					hasBroken := false
 					for coord.i = range slice {
 						line := slice[len(slice)-1-coord.i] // reverse
